@@ -393,8 +393,8 @@ func errstr(e error) string {
 
 func init() {
 	core.Register(&core.Monitor{
-		Prop: "C20",
-		Rule: "valid-sweep: one case per (length, start alignment) of a slice inside a page-aligned buffer whose surroundings have the opposite classification; inside a case every position x every deviating value (all 256 values for lengths<=80, 7 boundary values above) is evaluated for Valid/ValidString/ValidPrint/ValidPrintString against byte-wise loops. fold-sweep: one case per (length, position); all 128x128 ASCII byte pairs (or the 768 letter-focused pairs) at that position for EqualFold/HasPrefixFold/HasSuffixFold and String variants plus the -1/0/+1 length relations. byte-rune: all 256 bytes and every rune. json-fastpath: strings/keys with one deviating byte at each position vs encoding/json. A case is distinct by its (length, alignment|position) and non-trivial when length>0. Every answer is folded into a per-case hash that must be equal in the default and purego builds.",
+		Prop:    "C20",
+		Rule:    "valid-sweep: one case per (length, start alignment) of a slice inside a page-aligned buffer whose surroundings have the opposite classification; inside a case every position x every deviating value (all 256 values for lengths<=80, 7 boundary values above) is evaluated for Valid/ValidString/ValidPrint/ValidPrintString against byte-wise loops. fold-sweep: one case per (length, position); all 128x128 ASCII byte pairs (or the 768 letter-focused pairs) at that position for EqualFold/HasPrefixFold/HasSuffixFold and String variants plus the -1/0/+1 length relations. byte-rune: all 256 bytes and every rune. json-fastpath: strings/keys with one deviating byte at each position vs encoding/json. A case is distinct by its (length, alignment|position) and non-trivial when length>0. Every answer is folded into a per-case hash that must be equal in the default and purego builds.",
 		Trusted: []string{"byte-wise reference loops in mon/c20 (transcribed from the statement)", "encoding/json (go1.23.5) for the dependent JSON fast path"},
 		Subs: []core.Sub{
 			{Name: "valid-sweep", N: func(t core.Tier) int { d := validDims(t); return (d.maxLen + 1) * d.maxAlign }, Run: runValid},
